@@ -1,48 +1,53 @@
-import KoordVerif.Proofs.C01History
+import KoordVerif.Proofs.C01Extra
 /-
 C01 — elastic-quota used/request accounting is exact over any event history.
 
-Model: KoordVerif/Model/C01.lean (one dimension).  Local-equation formulation (DESIGN §4 C01):
-  `ReqInv s`  : for every group g   selfRequest g = Σ pods, selfNpRequest g = Σ non-preemptible pods,
-                childRequest g = selfRequest g + Σ_{c.parent = g} min(request c, max c)     (root: request g)
+Model: KoordVerif/Model/C01.lean (one resource dimension; `step : State → Op → State` mirrors GroupQuotaManager).
+Local-equation formulation (DESIGN §4 C01).  For every known group g of a state s:
+  `ReqInv s`  : selfRequest g = Σ cached pods, selfNpRequest g = Σ non-preemptible cached pods,
+                childRequest g = selfRequest g + Σ_{c.parent = g} min(request c, max c)   (root: request g),
                 npRequest g = selfNpRequest g + Σ_{c.parent = g} npRequest c,
-                request g = if lend then childRequest else max childRequest min             (g ≠ root)
-  `UsedInv s` : selfUsed g = Σ assigned pods, used g = selfUsed g + Σ_{c.parent = g} used c  (same for non-preemptible)
-  `LocalInv s = ReqInv s ∧ UsedInv s`.
-The equations are stated through their *defects* (`dCR`, `dNpReq`, `dUsed`, `dNpUsed` = lhs − rhs), so that the
-effect of a delta propagation can be described exactly also on states where an equation is (temporarily) off:
-that is how re-parenting, deletion, min/max updates and the rebuild use the propagation (self index −1).
+                request g = if lend then childRequest else max childRequest min           (g ≠ root)
+  `UsedInv s` : selfUsed g = Σ assigned cached pods, used g = selfUsed g + Σ_{c.parent = g} used c (same for non-preemptible)
+  `LocalInv s = ReqInv s ∧ UsedInv s`;  pod amounts are those of the object delivered last (ghost fields of the cache).
+`Good s` = `LocalInv s` ∧ topology well-formed (`Topo`: unique names, a rank function = acyclic, root on top, every
+computed parent path a proper chain) ∧ declared maxima and pod requests >= 0 ∧ cache ids unique per group.
 
-What is proved here for ALL states, chains, deltas (no bound on sizes or values):
-  * the exact effect of recursiveUpdateGroupTreeWithDeltaRequest / updateGroupDeltaUsedNoLock on every defect
-    of every group (`propagate_request_frame`, `propagate_used_frame`), both self-index conventions;
-  * a propagation that starts at the group whose pod set changed by exactly the propagated delta restores all
-    equations (`propagate_request_preserves`, `propagate_used_preserves`) and leaves the other side untouched;
-  * `no_clamp_*`: in that situation no non-negative clamp fires (the clamped run equals the un-clamped one), and
-    `localInv_nonneg`: a state satisfying the equations has no negative figure ("nothing is driven negative");
-  * `zero_delta_*_identity`: the only difference between the per-dimension model and the multi-dimension Go code.
-
-NOT yet proved (kept visible, see `step_preserves_localInv_partial` below): the lifting of the two preservation
-theorems through every individual operation (`step`) and hence `history_exact` by induction over op lists; the
-uniqueness lemma `localInv_unique`; `delta_commute`.  For those the check relies on the correspondence run
-(model = code after every op) plus the independent oracle (recomputation from the surviving pods and a fresh
-manager).  Hypotheses used below and not in the property text: the propagated path is a proper parent chain
-without repetition (`Chain`, `Nodup`: the tree is acyclic and free of orphans), quota names are unique, a rank
-function exists (acyclic), declared max and pod requests are >= 0.
+Theorems (all for arbitrary states / trees / amounts / histories, no size bound):
+  T1 `step_preserves_localInv`  every operation kind keeps `Good` (hence the equations) under its precondition `PreF`
+  T3 `history_exact`            induction over op lists from the empty manager
+  T2 `localInv_unique`          the equations determine every reported figure, hence
+     `history_matches_fresh`    two admissible histories ending in the same objects report identical figures
+                                ("indistinguishable from figures recomputed from scratch / a fresh manager")
+  T4 `no_clamp_*`, `localInv_nonneg`, `history_nonneg`  no clamp ever fires, nothing is negative
+  T5 `reset_agrees`             the full rebuild reproduces exactly the incrementally maintained figures
+     `propagate_*`              the exact effect of the two delta propagations on every equation of every group
+     `zero_delta_*_identity`    justification of the dimension-wise model (see Model header)
+`PreF s op` (Proofs/C01Full.lean) — hypotheses beyond the property text, all about the INPUT:
+  amounts >= 0; a quota object is never the root; new / intermediate topology admissible (what C15's webhook
+  guarantees: acyclic, parent known); groups not flagged isParent have no children (needed by the rebuild and by
+  re-parent, which re-add `ChildRequest`/`Used` of such a group as if they were its own pods); no pods cached in
+  the root group; the touched group declares the dimension (the property fixes one shared dimension set);
+  the old pod object handed to a handler is the one delivered last (informer consistency);
+  MigratePod is called for a cached pod and a target that does not hold it.
+NOT proved: `delta_commute` as a Lean theorem (interleavings of two path-locked propagations); it is a corollary
+of T1 + T2 up to the order of cache lists, not formalised.  Concurrency inside a handler is outside the model.
 -/
 namespace KoordVerif.C01
 
-/-- Exact effect of the request propagation (un-clamped run) on every group `m`: nothing but the five request
-figures changes; `selfRequest`/`selfNpRequest` change only at the head and only with self index 0; the defect
-of the childRequest equation (root: request equation) of `m` changes by `d` exactly when `m` is the head and
-the self index is −1, likewise the non-preemptible one; on every non-root group of the path
+/-! ### the two delta propagations -/
+
+/-- Exact effect of recursiveUpdateGroupTreeWithDeltaRequest (un-clamped run) on every group `m`: nothing but the
+five request figures changes; selfRequest/selfNpRequest change only at the head and only with self index 0; the
+defect of the childRequest equation (root: request equation) of `m` changes by `d` exactly when `m` is the head
+and the self index is −1, likewise the non-preemptible one; on every non-root group of the path
 `request = lendRule childRequest` holds afterwards; groups off the path are untouched. -/
 theorem propagate_request_frame (path : List Nat) (s : State) (self : Bool) (d dnp : Int)
     (hc : Chain s path) (hnd : path.Nodup) :
     ReqRel s (propReqW id s path self d dnp) path self d dnp :=
   propReq_frame path s self d dnp hc hnd
 
-/-- Exact effect of the used propagation (un-clamped run), same shape. -/
+/-- Exact effect of updateGroupDeltaUsedNoLock (un-clamped run), same shape. -/
 theorem propagate_used_frame (path : List Nat) (s : State) (self : Bool) (d dnp : Int)
     (hc : Chain s path) (hnd : path.Nodup) :
     UsedRel s (propUsedW id s path self d dnp) path.head? self d dnp :=
@@ -67,7 +72,16 @@ theorem propagate_used_preserves {s : State} {pth : List Nat} {n : Nat} {d dnp :
     tree (propUsed s pth true d dnp) = tree s ∧ ParamsOK (propUsed s pth true d dnp) :=
   (propUsed_self hc hnd hh ht hpar hpend).2
 
-/-- no_clamp (request): in the situation of `propagate_request_preserves` every clamp is the identity. -/
+/-- Self index −1 (delete, re-parent, min/max update): a children sum of the head that is off by exactly the
+propagated delta is repaired, everything else is kept. -/
+theorem propagate_request_repairs {s : State} {pth : List Nat} {g : Nat} {d dnp : Int}
+    (hc : Chain s pth) (hnd : pth.Nodup) (hh : pth.head? = some g)
+    (ht : TreeOK (tree s)) (hpar : ParamsOK s) (hoff : ReqOff s g d dnp) :
+    ReqInv (propReq s pth false d dnp) :=
+  (propReq_top hc hnd hh ht hpar hoff).2.1
+
+/-! ### no clamp fires, nothing is negative -/
+
 theorem no_clamp_request {s : State} {pth : List Nat} {n : Nat} {d dnp : Int}
     (hc : Chain s pth) (hnd : pth.Nodup) (hh : pth.head? = some n)
     (ht : TreeOK (tree s)) (hpar : ParamsOK s) (hpend : ReqPend s n d dnp) :
@@ -80,8 +94,9 @@ theorem no_clamp_used {s : State} {pth : List Nat} {n : Nat} {d dnp : Int}
     propUsedW clamp0 s pth true d dnp = propUsedW id s pth true d dnp :=
   (propUsed_self hc hnd hh ht hpar hpend).1
 
-/-- General form of no_clamp: whenever the un-clamped run ends without a negative figure on the path, the
-clamped run took exactly the same steps (any self index, any pre-state). -/
+/-- General form: whenever the un-clamped run ends without a negative figure on the path, the clamped run took
+exactly the same steps (any self index, any pre-state).  Every use of a propagation inside `step` is an instance
+(Proofs/C01Gen.lean `propReq_gen`, `propUsed_gen`), so no clamp fires in any admissible history. -/
 theorem no_clamp_request_general (path : List Nat) (s : State) (self : Bool) (d dnp : Int) (hnd : path.Nodup)
     (h : ∀ m ∈ path, ∀ q', get? (propReqW id s path self d dnp) m = some q' →
       0 ≤ crOf q' ∧ 0 ≤ q'.npRequest ∧ 0 ≤ q'.selfRequest ∧ 0 ≤ q'.selfNpRequest) :
@@ -99,6 +114,8 @@ theorem localInv_nonneg {s : State} (ht : TreeOK (tree s)) (hp : ParamsOK s) (hl
     ∀ m q, get? s m = some q → RNonneg q ∧ UNonneg q :=
   fun m q hq => ⟨reqInv_nonneg ht hp hl.1 m q hq, usedInv_nonneg ht hp hl.2 m q hq⟩
 
+/-! ### every operation, every history -/
+
 /-- DeleteQuota keeps the local equations — because deleteQuotaNoLock hands back the max-LIMITED request
 (`0 - q.limited` in the model; the defect repaired by 3651408 handed back the raw request). -/
 theorem delete_preserves_localInv {s : State} {n : Nat} {q : Quota} (hq : get? s n = some q)
@@ -108,41 +125,68 @@ theorem delete_preserves_localInv {s : State} {n : Nat} {q : Quota} (hq : get? s
     LocalInv (deleteQuota s n) ∧ TreeOK (tree (deleteQuota s n)) ∧ ParamsOK (deleteQuota s n) :=
   deleteQuota_preserves hq ht hpar hl hc hnd hh
 
-/-
-`Good s` = topology well-formed (`Topo`: unique names, a rank function, the root on top, every computed path a
-proper chain) ∧ declared maxima and pod requests >= 0 ∧ cache ids unique per group ∧ `LocalInv s`.
-`Pre s op` (Proofs/C01History.lean): amounts >= 0, the touched group declares the dimension, the old pod object
-handed to a handler is the one delivered last (`Consistent`), new / remaining topology admissible (what the
-webhook of C15 guarantees), MigratePod moves a cached pod into a group that does not hold it.
+/-- updateQuotaNoLockWhenParentChange (delete, re-insert, re-add self / child request and used) -/
+theorem reparent_preserves_localInv {s : State} {q : Quota} {sp : QSpec} (h : Good s) (hq : get? s sp.name = some q)
+    (hpre : RepPre s q sp) : Good (reparent s q sp) ∧ LocalInv (reparent s q sp) :=
+  ⟨reparent_good h hq hpre, good_localInv (reparent_good h hq hpre)⟩
 
-FULL STATEMENT (DESIGN §4 C01 T1/T3):
-  step_preserves_localInv : Good s → Pre' s op → Good (step s op)      for EVERY op kind
-  history_exact           : PreAll' init ops → LocalInv (run init ops)
-Proved below for every op kind EXCEPT: UpdateQuota with a changed parent (re-parent), UpdateQuota with a changed
-lend / isParent flag (updateQuotaInfoFromRemote + resetQuotaNoLock) and ResetQuota — for these `Pre` is `False`.
-Everything else (create, min/max/weight update, delete, OnPodAdd incl. fail-over, OnPodUpdate all branches,
-OnPodDelete, ReservePod, UnreservePod, MigratePod) is covered, for all states, trees, amounts and histories.
-Also not proved: `localInv_unique` (the equations determine the figures), `reset_agrees`, `delta_commute`.
--/
-
-/-- one operation keeps the invariant (hence the local equations) -/
-theorem step_preserves_localInv_partial {s : State} {op : Op} (h : Good s) (hpre : Pre s op) :
+/-- T1: one operation of ANY kind (UpdateQuota: create / min,max,weight / re-parent / flag change with rebuild;
+DeleteQuota; ResetQuota; OnPodAdd incl. fail-over; OnPodUpdate all branches; OnPodDelete; ReservePod;
+UnreservePod; MigratePod) keeps the invariant. -/
+theorem step_preserves_localInv {s : State} {op : Op} (h : Good s) (hpre : PreF s op) :
     Good (step s op) ∧ LocalInv (step s op) :=
-  ⟨step_good h hpre, good_localInv (step_good h hpre)⟩
+  ⟨step_good_full h hpre, good_localInv (step_good_full h hpre)⟩
 
-/-- any finite history of covered operations, from the empty manager: the local equations hold at the end
-(and after every prefix, since `PreAll` is prefix-closed by construction). -/
-theorem history_exact_partial (ops : List Op) (hp : PreAll init ops) :
+/-- T3: any finite history from the empty manager whose operations meet their preconditions ends in a state that
+satisfies every local equation (`PreAllF` is prefix-closed, so this holds after every prefix as well). -/
+theorem history_exact (ops : List Op) (hp : PreAllF init ops) :
     Good (run init ops) ∧ LocalInv (run init ops) :=
-  ⟨run_good ops init init_good hp, good_localInv (run_good ops init init_good hp)⟩
+  ⟨run_good_full ops init init_good hp, good_localInv (run_good_full ops init init_good hp)⟩
 
-/-- …and consequently nothing is negative at the end of such a history -/
-theorem history_nonneg_partial (ops : List Op) (hp : PreAll init ops) :
+/-- …and nothing is negative at the end of such a history -/
+theorem history_nonneg (ops : List Op) (hp : PreAllF init ops) :
     ∀ m q, get? (run init ops) m = some q → RNonneg q ∧ UNonneg q := by
-  have hg := run_good ops init init_good hp
+  have hg := run_good_full ops init init_good hp
   exact localInv_nonneg hg.topo.tree hg.params (good_localInv hg)
 
-/-! ### non-vacuity: a concrete history, its state, and the hypotheses on it -/
+/-! ### the figures are the from-scratch figures -/
+
+/-- T2: two states over the same objects (quota specs + cached pods) that both satisfy the local equations
+report the same figures for every group. -/
+theorem localInv_unique {s s' : State} (hobj : s'.map obj = s.map obj) (ht : TreeOK (tree s))
+    (h : LocalInv s) (h' : LocalInv s') :
+    ∀ m q q', get? s m = some q → get? s' m = some q' → aggs q' = aggs q :=
+  localInv_unique_aux hobj ht h h'
+
+/-- The incrementally maintained figures are indistinguishable from those of ANY other admissible history that
+ends in the same objects — in particular of a fresh manager that is fed the final objects only. -/
+theorem history_matches_fresh (ops ops' : List Op) (hp : PreAllF init ops) (hp' : PreAllF init ops')
+    (hobj : (run init ops').map obj = (run init ops).map obj) :
+    ∀ m q q', get? (run init ops) m = some q → get? (run init ops') m = some q' → aggs q' = aggs q := by
+  have hg := run_good_full ops init init_good hp
+  have hg' := run_good_full ops' init init_good hp'
+  exact localInv_unique hobj hg.topo.tree (good_localInv hg) (good_localInv hg')
+
+/-- T5: the full rebuild (resetQuotaNoLock) reproduces exactly the incrementally maintained figures. -/
+theorem reset_agrees {s : State} (h : Good s) (hleaf : LeafOK s) (hroot : RootEmpty s) :
+    ∀ m q q', get? s m = some q → get? (resetAll s) m = some q' → aggs q' = aggs q :=
+  localInv_unique (resetAll_obj s) h.topo.tree (good_localInv h) (good_localInv (resetQuota_good h hleaf hroot))
+
+/-! ### dimension-wise decomposition -/
+
+/-- see `propReq_zero_id` in Proofs/C01Extra.lean -/
+theorem zero_delta_request_identity (pth : List Nat) (s : State) (self : Bool)
+    (h : ∀ m ∈ pth, ∀ q, get? s m = some q → 0 ≤ q.request ∧ 0 ≤ q.npRequest ∧ 0 ≤ q.childRequest ∧ 0 ≤ q.selfRequest ∧
+      0 ≤ q.selfNpRequest ∧ (m ≠ rootName → q.request = lendRule q q.childRequest)) :
+    propReq s pth self 0 0 = s :=
+  propReq_zero_id pth s self h
+
+theorem zero_delta_used_identity (pth : List Nat) (s : State) (self : Bool)
+    (h : ∀ m ∈ pth, ∀ q, get? s m = some q → 0 ≤ q.used ∧ 0 ≤ q.npUsed ∧ 0 ≤ q.selfUsed ∧ 0 ≤ q.selfNpUsed) :
+    propUsed s pth self 0 0 = s :=
+  propUsed_zero_id pth s self h
+
+/-! ### non-vacuity: concrete histories, their states, and the hypotheses on them -/
 
 /-- root(1) ⊇ P1(2), P2(3); A(4): max 10 under P1 with a pod of 30; B(5) under P1 with a pod of 25. -/
 def exOps : List Op :=
@@ -163,5 +207,49 @@ example : path exState 4 = [4, 2, 1] ∧ Chain exState [4, 2, 1] ∧ [4, 2, 1].N
 /-- …and the re-parent of A to P2 (the history of the defect repaired by commit 3651408) leaves P1 with B's 25 -/
 example : ((run exState [.quota ⟨4, 3, false, true, 10, 0⟩]).map fun q => (q.name, q.request)) =
     [(4, 30), (5, 25), (3, 10), (2, 25), (1, 35)] := by decide
+
+/-- `PreAllF` is satisfiable on a non-trivial history: create a leaf quota, add a pod whose request exceeds max. -/
+def exOps2 : List Op := [ .quota ⟨2, 1, false, true, 10, 0⟩, .podAdd 2 ⟨1, 30, false, false, false, false⟩ ]
+
+def exS1 : State := step init (.quota ⟨2, 1, false, true, 10, 0⟩)
+
+theorem exS1_eq : exS1 = [ { emptyQuota 2 1 false true with max := some 10 }, emptyQuota 1 0 true false ] := by decide
+
+theorem ex_topo : Topo (emptyQuota 2 1 false true :: init) := by
+  refine ⟨⟨by decide, ⟨fun n => if n = 1 then 1 else 0, by decide⟩, by decide⟩, ?_⟩
+  intro n hn
+  have hcases : n = 2 ∨ n = 1 := by
+    simp only [init, get?, emptyQuota] at hn
+    by_cases h2 : 2 = n
+    · left; exact h2.symm
+    · by_cases h1 : rootName = n
+      · right; rw [← h1]; rfl
+      · simp [h2, h1] at hn
+  rcases hcases with rfl | rfl
+  · exact ⟨⟨by decide, by decide, 0, by decide, by decide⟩, by decide, by decide⟩
+  · exact ⟨⟨0, by decide, by decide⟩, by decide, by decide⟩
+
+example : PreAllF init exOps2 := by
+  refine ⟨⟨by decide, by decide, ?_⟩, ?_, trivial⟩
+  · show (∀ c ∈ init, c.parent ≠ 2) ∧ Topo (emptyQuota 2 1 false true :: init)
+    exact ⟨by decide, ex_topo⟩
+  · show PodPre exS1 2 ⟨1, 30, false, false, false, false⟩
+    rw [exS1_eq]
+    refine ⟨by decide, fun q hq => ?_⟩
+    simp only [get?, emptyQuota, if_true, Option.some.injEq] at hq
+    subst hq
+    exact ⟨rfl, fun e he => by simp [getPod] at he⟩
+
+/-- and the theorem then gives, e.g., the equations for the state after that history -/
+example : LocalInv (run init exOps2) := (history_exact exOps2 (by
+  refine ⟨⟨by decide, by decide, ?_⟩, ?_, trivial⟩
+  · show (∀ c ∈ init, c.parent ≠ 2) ∧ Topo (emptyQuota 2 1 false true :: init)
+    exact ⟨by decide, ex_topo⟩
+  · show PodPre exS1 2 ⟨1, 30, false, false, false, false⟩
+    rw [exS1_eq]
+    refine ⟨by decide, fun q hq => ?_⟩
+    simp only [get?, emptyQuota, if_true, Option.some.injEq] at hq
+    subst hq
+    exact ⟨rfl, fun e he => by simp [getPod] at he⟩)).2
 
 end KoordVerif.C01
